@@ -25,6 +25,13 @@ IsPair == Last.e = "pair"
 C15_NoDrop == IsObs => NoDrop(Last)
 C15_HttpRendering == (IsObs /\ NoDrop(Last)) => HttpOK(Last)
 C15_GrpcRendering == (IsObs /\ NoDrop(Last)) => GrpcOK(Last)
+\* a claimed task is rendered with the type of its message and exactly the promises the kernel handed
+\* out with it (root; leaf only for a resume), identically over both protocols
+C15_ClaimCarriesItsPromises ==
+  (IsObs /\ Last.op = "ClaimTask" /\ Last.status = 20100 /\ Last.shape \in {"invoke", "resume", "notify"} /\ NoDrop(Last)) =>
+     LET o == IF Last.proto = "http" THEN Last.http ELSE Last.grpc IN
+     /\ o.mesgType = Last.shape
+     /\ o.promises = IF Last.shape = "resume" THEN <<"leaf", "root">> ELSE <<"root">>
 \* equivalent requests are translated into the same kernel request
 C15_SameRequest == IsPair => (Last.http.kind = Last.grpc.kind /\ Last.http.args = Last.grpc.args /\ Last.http.kind = Last.op)
 
